@@ -340,6 +340,11 @@ func msSetup(sc msScen, scratch string) func(s *vsched.Sched) any {
 					waiting[n] = true
 				}
 				st.mi.m.Close()
+				// ... and requests that have not come back from their wait when Close returns (woken earlier, e.g. by new
+				// content, but not yet run): they re-acquire the muxer mutex after Close and must see it closed
+				for _, n := range condInWait(st.mi.m.cond) {
+					waiting[n] = true
+				}
 				st.mu.Lock()
 				for _, l := range st.logs {
 					if waiting[l.Thread] && !l.Finished {
@@ -390,6 +395,14 @@ func (st *msState) addLog(l *msReqLog) {
 func condWaiters(c any) []string {
 	if w, ok := c.(interface{ Waiters() []string }); ok {
 		return w.Waiters()
+	}
+	return nil
+}
+
+// condInWait returns the threads that are inside Wait: still waiting for a signal, or signalled and not yet back.
+func condInWait(c any) []string {
+	if w, ok := c.(interface{ InWait() []string }); ok {
+		return w.InWait()
 	}
 	return nil
 }
